@@ -50,6 +50,12 @@ def build_harness(bins=None):
     for b in bins or []:
         cmd += ["--bin", b]
     env = dict(os.environ)
+    alt = os.environ.get("VERIF_REPO")
+    if alt:
+        # development aid: build against a scratch worktree of /repo instead of /repo itself
+        # (cargo `paths` override), with its own target directory. Registered commands never set this.
+        cmd += ["--config", f'paths=["{alt}"]']
+        env["CARGO_TARGET_DIR"] = _alt_target(alt)
     env.setdefault("CARGO_NET_OFFLINE", "true")
     t0 = time.time()
     p = subprocess.run(cmd, cwd=HARNESS, env=env, stdout=subprocess.PIPE, stderr=subprocess.STDOUT, text=True)
@@ -60,8 +66,13 @@ def build_harness(bins=None):
     return time.time() - t0
 
 
+def _alt_target(alt):
+    return os.path.join(HARNESS, "target_alt", os.path.basename(alt.rstrip("/")))
+
+
 def bin_path(name):
-    tdir = os.environ.get("CARGO_TARGET_DIR") or os.path.join(HARNESS, "target")
+    alt = os.environ.get("VERIF_REPO")
+    tdir = _alt_target(alt) if alt else (os.environ.get("CARGO_TARGET_DIR") or os.path.join(HARNESS, "target"))
     return os.path.join(tdir, "release", name)
 
 
@@ -101,7 +112,7 @@ _TAG_RE = re.compile(r'^<<"([A-Z]+)", "(.*)">>$')
 
 
 def tlc(module, cfg, *, workers=None, timeout=600, tags=(), sinks=None, simulate=None, depth=None,
-        extra=(), env=None, heap="8g", coverage=False, tag=None, deadlock=False, seed_arg=True):
+        extra=(), env=None, heap="6g", coverage=False, tag=None, deadlock=False, seed_arg=True):
     """Run TLC on spec/<module>.tla with spec/<cfg>.
 
     Lines printed by the spec as PrintT(<<"TAG", json>>) for TAG in `tags` are decoded and
